@@ -242,4 +242,66 @@ pub(crate) mod verif_opmod {
     //@ desc="for every key of this length: table.get(key) is Some iff key is exactly one of the operator names of that table (no prefix, case variant or padded spelling), on the real phf code"
     key_harness!(k_c02_keys_len13, 13);
 //@END-GENERATED-KEYS
+
+    // =====================================================================================
+    // C02 / C03: op_from_map - which values are operations, operand wrapping, arity check
+    // =====================================================================================
+    fn obj1(key: &str, val: Value) -> Value {
+        let mut m = Map::new();
+        m.insert(String::from(key), val);
+        Value::Object(m)
+    }
+    fn nulls(n: usize) -> Value {
+        let mut v = Vec::with_capacity(8);
+        let mut i = 0;
+        while i < n {
+            v.push(Value::Null);
+            i += 1;
+        }
+        Value::Array(v)
+    }
+
+    /// every table agrees a value is not an operation
+    fn assert_not_op(v: &Value) {
+        assert!(matches!(op_from_map(&OPERATOR_MAP, v), Ok(None)), "C02: a literal was taken for an eager operation");
+        assert!(matches!(op_from_map(&DATA_OPERATOR_MAP, v), Ok(None)), "C02: a literal was taken for a data operation");
+        assert!(matches!(op_from_map(&LAZY_OPERATOR_MAP, v), Ok(None)), "C02: a literal was taken for a lazy operation");
+    }
+
+    //@ob name=C02.op_from_map.non_objects props=C02,C01 strength=complete fns=op::op_from_map replay=generic stubs=1
+    //@ desc="op_from_map(table, v) is Ok(None) for every table and every non-object v: null, any bool, any JSON number, strings, arrays"
+    #[cfg_attr(kani, kani::proof)]
+    #[cfg_attr(kani, kani::stub(std::fmt::format, crate::verif_support::fmt_stub))]
+    pub(crate) fn k_c02_op_from_map_non_objects() {
+        let v0 = MD::new(Value::Null);
+        let v1 = MD::new(Value::Bool(kani::any()));
+        let v2 = MD::new(Value::Number(any_number()));
+        let v3 = MD::new(Value::String(any_ascii_string::<2>()));
+        let v4 = MD::new(Value::Array(vec![Value::String(String::from("=="))]));
+        assert_not_op(&v0);
+        assert_not_op(&v1);
+        assert_not_op(&v2);
+        assert_not_op(&v3);
+        assert_not_op(&v4);
+        kani::cover!(true, "checked");
+    }
+
+    macro_rules! not_op_harness {
+        ($h:ident, $mk:expr) => {
+            #[cfg_attr(kani, kani::proof)]
+            #[cfg_attr(kani, kani::unwind(8))]
+            #[cfg_attr(kani, kani::stub(std::fmt::format, crate::verif_support::fmt_stub))]
+            pub(crate) fn $h() {
+                let v = MD::new($mk);
+                #[cfg(verif_replay)]
+                eprintln!("REPLAY-INPUT: op_from_map(table, {})", &*v);
+                assert_not_op(&v);
+                kani::cover!(true, "checked");
+            }
+        };
+    }
+    //@ob name=C02.op_from_map.empty_object harness=k_c02_ofm_empty props=C02,C01 strength=bounded bound="the value {}" fns=op::op_from_map replay=generic stubs=1
+    //@ desc="the empty object is not an operation"
+    not_op_harness!(k_c02_ofm_empty, Value::Object(Map::new()));
+    // (objects with two keys / unknown keys: BTreeMap-backed objects do not finish in CBMC; V:op_from_map covers them for all maps)
 }
